@@ -31,7 +31,7 @@ TUpload == IsEvent("upload") /\ Strict /\ AUpload(Ev.to, Ev.k, Ev.c, Ev.d, vttl,
 TDelete == IsEvent("delete") /\ Strict /\ ADelete(Ev.to, Ev.k, Ev.c, Ev.res) /\ UNCHANGED vttl
 TRace == IsEvent("race") /\ Strict /\ ARace(Ev.k, Ev.c, Ev.d1, Ev.d2, Ev.res1, Ev.res2) /\ UNCHANGED vttl
 TFault == IsEvent("fault") /\ Strict /\ AFault(Ev.kind, Ev.r, Ev.res) /\ UNCHANGED vttl
-AltIds(k) == {a.id : a \in UNION {alt[r][k] : r \in AllR}}
+AltIds(k) == UNION {a.ids : a \in UNION {alt[r][k] : r \in AllR}}
 TSnap ==
   /\ IsEvent("snap")
   /\ \E S \in SUBSET (KF \cap AltIds(Ev.k)) : DeviateAll(S) /\ SnapOK(Ev.k, ObsFn, S)
